@@ -912,3 +912,145 @@ func TestVerifKF_C14_unicode_space_before_paren(t *testing.T) {
 	rep, what := c14Repro(e, c14Req{Endpoint: "json", SQL: "SELECT count(*) FROM db1.cpu a, parquet_scan\u00a0('" + c14CanaryFile + "') b"})
 	verifkit.KnownFinding(c14FindUnicodeGap, rep, "parquet_scan<U+00A0>('<path>') slips past ioTableFunctionPattern's \\s*\\( while DuckDB treats U+00A0 as a space: "+what)
 }
+
+// ---------------------------------------------------------------- request sequences
+
+// A sequence sends the SAME statement text several times to the same handler
+// (caches warm, nothing cleared in between) under different x-arc-database
+// values, endpoints and principals: token 7 may read db1 only, token 8 db2
+// only. db1.cpu and db2.cpu share the bare name `cpu`, so one text legitimately
+// resolves to different files depending on the header. Every answer is judged
+// by the same file-access + sentinel oracle, for the principal that sent it.
+
+type c14Step struct {
+	Token    int    `json:"token"`
+	Header   string `json:"x_arc_database"`
+	Endpoint string `json:"endpoint"`
+}
+
+type c14Seq struct {
+	SQL   string    `json:"sql"`
+	Len   int       `json:"sql_bytes"`
+	Pad   string    `json:"padding"`
+	Steps []c14Step `json:"steps"`
+}
+
+// c14Pad returns filler of roughly n bytes in the requested style.
+func c14Pad(kind string, n int) string {
+	switch kind {
+	case "block-comment":
+		return "/* " + strings.Repeat("pad ", n/4) + "*/"
+	case "line-comment":
+		return "-- " + strings.Repeat("x", n) + "\n"
+	case "whitespace":
+		return strings.Repeat(" \n\t", n/3+1)
+	case "in-list":
+		var b strings.Builder
+		b.WriteString("AND tag NOT IN (")
+		for i := 0; b.Len() < n; i++ {
+			if i > 0 {
+				b.WriteString(", ")
+			}
+			fmt.Fprintf(&b, "'never_%d'", i)
+		}
+		b.WriteString(")")
+		return b.String()
+	case "literal":
+		return "AND tag <> '" + strings.Repeat("z", n) + "'"
+	}
+	return ""
+}
+
+func c14GenSeq(t *rapid.T) c14Seq {
+	g := &c14Gen{t: t, feat: map[string]bool{}}
+	S, F := c14KW(g, "SELECT"), c14KW(g, "FROM")
+	proj := g.oneOf("sproj", "count(*)", "max(tag)", "count(*), max(tag), min(v)", "*")
+	// header-relative statements over the bare name both databases have
+	var body string
+	switch g.oneOf("sshape", "plain", "plain", "quoted-name", "join", "subq", "cte", "scalar", "commented") {
+	case "plain":
+		body = g.join(S, proj, F, "cpu", "WHERE v >= 0")
+	case "quoted-name":
+		body = g.join(S, proj, F, `"cpu"`, "WHERE v >= 0")
+	case "join":
+		body = g.join(S, "count(*), max(b.tag)", F, "cpu a", "JOIN", "cpu b", "ON a.time = b.time", "WHERE a.v >= 0")
+	case "subq":
+		body = g.join(S, proj, F, "(", S, "*", F, "cpu", ")", "s", "WHERE v >= 0")
+	case "cte":
+		body = g.join("WITH c AS (", S, "*", F, "cpu", ")", S, proj, F, "c", "WHERE v >= 0")
+	case "scalar":
+		body = g.join(S, "(", S, "max(tag)", F, "cpu", ")", "AS m, count(*)", F, "cpu", "WHERE v >= 0")
+	default:
+		body = g.join(S, "/* c */", proj, F, "cpu", "-- x\n", "WHERE v >= 0")
+	}
+	pad := g.oneOf("padkind", "none", "block-comment", "line-comment", "whitespace", "in-list", "literal", "block-comment", "in-list")
+	n := 0
+	if pad != "none" {
+		n = rapid.SampledFrom([]int{40, 300, 900, 1000, 1030, 1100, 1500, 3000, 6000}).Draw(t, "padlen")
+	}
+	switch pad {
+	case "block-comment", "line-comment", "whitespace":
+		if g.chance("padfront", 50) {
+			body = c14Pad(pad, n) + " " + body
+		} else {
+			body = body + " " + c14Pad(pad, n)
+		}
+	case "in-list", "literal":
+		body = body + " " + c14Pad(pad, n)
+	}
+	seq := c14Seq{SQL: body, Len: len(body), Pad: pad}
+	k := rapid.IntRange(2, 4).Draw(t, "steps")
+	for i := 0; i < k; i++ {
+		st := c14Step{Token: c14TokenDB1, Endpoint: g.oneOf("sep", "json", "json", "msgpack", "arrow", "estimate")}
+		if g.chance("token8", 50) {
+			st.Token = c14TokenDB2
+		}
+		// mostly the principal's own database; sometimes the other one or none
+		own, other := "db1", "db2"
+		if st.Token == c14TokenDB2 {
+			own, other = "db2", "db1"
+		}
+		st.Header = g.oneOf("shdr", own, own, own, own, other, "", "db3")
+		seq.Steps = append(seq.Steps, st)
+	}
+	return seq
+}
+
+func TestVerifC14_Sequences(t *testing.T) {
+	e := c14NewEnv(t)
+	rapid.Check(t, func(t *rapid.T) {
+		seq := c14GenSeq(t)
+		hdrs, toks, acc := map[string]bool{}, map[int]bool{}, 0
+		for i, st := range seq.Steps {
+			r := c14Req{Token: st.Token, Endpoint: st.Endpoint, SQL: seq.SQL, Header: st.Header}
+			res := e.do(r)
+			verifkit.Eval()
+			verifkit.Class("seq-step:" + st.Endpoint)
+			if res.Success {
+				acc++
+			}
+			hdrs[st.Header] = true
+			toks[st.Token] = true
+			c := c14Case{Req: r, Features: []string{fmt.Sprintf("sequence-step-%d-of-%d", i+1, len(seq.Steps)), "pad:" + seq.Pad, fmt.Sprintf("sql-bytes:%d", seq.Len)}, Mentions: true}
+			r.SQL = "" // keep the failure message short: the text is printed once below
+			col := &c14Collect{}
+			c14Judge(col, c, res)
+			if col.msg != "" {
+				verifkit.WriteReplay("c14-sequence", seq)
+				t.Fatalf("%s\nsequence (same text, %d bytes, padding %s): %+v\nsql: %s", col.msg, seq.Len, seq.Pad, seq.Steps, c19ShortStr(seq.SQL))
+			}
+		}
+		verifkit.Class("sequences")
+		if seq.Len > 1024 {
+			verifkit.Class("sequences-over-1KB")
+		}
+		// non-trivial: the same text ran under >= 2 header values and was accepted at least twice
+		if len(hdrs) >= 2 && acc >= 2 {
+			verifkit.Class("sequences-nontrivial")
+			if len(toks) >= 2 {
+				verifkit.Class("sequences-two-principals")
+			}
+			verifkit.NonTrivial(fmt.Sprintf("seq|%s|%+v", seq.SQL, seq.Steps))
+		}
+	})
+}
